@@ -16,6 +16,11 @@ if [ -n "$demo" ]; then
   gcc -std=gnu99 -O1 -I /repo/src/liblzma/api -o /tmp/demo_$P.without $D/demo.c /repo/_build/liblzma.a -lpthread >>$log 2>&1
   (cd $W/SEED && /tmp/demo_$P.without) >>$log 2>&1; rc_without=$?
   rm -f /tmp/demo_$P.with /tmp/demo_$P.without
+elif [ -f $D/demo.sh ]; then
+  # shell demo: first arg = path of xz (C17,C19) or of the build dir (C18)
+  if grep -q 'B=\${1:-' $D/demo.sh; then A1=$W/_build; A2=/repo/_build; else A1=$W/_build/xz; A2=/repo/_build/xz; fi
+  bash $D/demo.sh $A1 >>$log 2>&1; rc_with=$?
+  bash $D/demo.sh $A2 >>$log 2>&1; rc_without=$?
 else
   rc_with=NA; rc_without=NA
 fi
